@@ -200,4 +200,161 @@ theorem lookup_tableOf (rest : List Block) (i : Int) (T : Rat) (acc : Tbl) (k : 
       push_cast
       ring
 
+/-- what the expansion is compared on: pitch and duration of every note, in order -/
+def pd (n : Note) : Int × Rat := (n.pitch, n.end_ - n.start)
+
+theorem pd_shiftBlock (s : Rat) (ns : List Note) : (shiftBlock s ns).map pd = ns.map pd := by
+  simp only [shiftBlock, List.map_map]
+  apply List.map_congr_left
+  intro n _
+  simp only [Function.comp, pd, Prod.mk.injEq, true_and]
+  ring
+
+theorem maxEnd_le (l : List Note) (m d : Rat) (hm : m ≤ d) (hl : ∀ n ∈ l, n.end_ ≤ d) : maxEnd l m ≤ d := by
+  induction l generalizing m with
+  | nil => simpa [maxEnd] using hm
+  | cons n r ih =>
+    simp only [maxEnd]
+    apply ih
+    · split
+      · exact hl n (by simp)
+      · exact hm
+    · intro x hx; exact hl x (by simp [hx])
+
+/-- `concatenate_sequences` with durations that cover the sections: pitches and durations in order -/
+theorem concatNotes_pd (es : List (List Note × Rat × Rat)) (cur : Rat) (h : ∀ e ∈ es, e.2.1 ≤ e.2.2) :
+    ∃ L, concatNotes id es cur = .ok L ∧ L.map pd = es.flatMap (fun e => e.1.map pd) := by
+  induction es generalizing cur with
+  | nil => exact ⟨[], rfl, rfl⟩
+  | cons e r ih =>
+    obtain ⟨ns, tot, dur⟩ := e
+    have h1 : tot ≤ dur := h (ns, tot, dur) (by simp)
+    obtain ⟨L, hL, hpd⟩ := ih (id (cur + dur)) (fun e he => h e (by simp [he]))
+    simp only [concatNotes]
+    rw [if_neg (by linarith), hL]
+    refine ⟨_, rfl, ?_⟩
+    simp only [List.map_append, List.flatMap_cons, hpd]
+    congr 1
+    split
+    · simp only [List.map_map, id]
+      apply List.map_congr_left
+      intro n _
+      simp only [Function.comp, pd, Prod.mk.injEq, true_and]
+      ring
+    · rfl
+
+theorem lookupAll_ok {β} (tbl : List (Int × β)) (ids : List Int) (f : Int → β) (h : ∀ i ∈ ids, lookup i tbl = some (f i)) :
+    lookupAll tbl ids = .ok (ids.map f) := by
+  induction ids with
+  | nil => rfl
+  | cons i r ih =>
+    simp only [lookupAll, h i (by simp), ih (fun j hj => h j (by simp [hj])), List.map_cons]
+
+theorem flatMap_congr' {α β} (l : List α) (f g : α → List β) (h : ∀ x ∈ l, f x = g x) :
+    l.flatMap f = l.flatMap g := by
+  induction l with
+  | nil => rfl
+  | cons a r ih =>
+    simp only [List.flatMap_cons, h a (by simp), ih (fun x hx => h x (by simp [hx]))]
+
+theorem regroup {β} (f : Int → List β) (groups : List (Int × Nat)) :
+    (groups.flatMap (fun g => List.replicate g.2 g.1)).flatMap f =
+      groups.flatMap (fun g => (List.replicate g.2 (f g.1)).flatten) := by
+  induction groups with
+  | nil => rfl
+  | cons g r ih =>
+    simp only [List.flatMap_cons, List.flatMap_append, ih]
+    congr 1
+    induction g.2 with
+    | zero => rfl
+    | succ n ihn => simp [List.replicate_succ, ihn]
+
+/-- a tune whose notes are partitioned by its section annotations -/
+def tuneOfBlocks (bs : List Block) (T : Rat) (groups : List (Int × Nat)) (base : Tune) : Tune :=
+  { base with notes := blockNotes bs, sections := blockSections bs 0, groups := groups, totalTime := T }
+
+/-- pitches and durations of section `i` -/
+def blockPd (bs : List Block) (i : Int) : List (Int × Rat) :=
+  match bs[i.toNat]? with
+  | some (_, ns) => ns.map pd
+  | none => []
+
+theorem expand_blocks (bs : List Block) (T : Rat) (groups : List (Int × Nat)) (base : Tune)
+    (hwf : BlocksWF bs T) (hsorted : (blockNotes bs).Pairwise (fun a b => a.start ≤ b.start))
+    (hne : groups ≠ []) (hids : ∀ g ∈ groups, 0 ≤ g.1 ∧ g.1 < bs.length) :
+    ∃ L, expand id (tuneOfBlocks bs T groups base) = .ok L ∧
+      L.map pd = groups.flatMap (fun g => (List.replicate g.2 (blockPd bs g.1)).flatten) := by
+  unfold expand
+  simp only [tuneOfBlocks, hne, ↓reduceIte]
+  rw [List.mergeSort_of_pairwise (by simpa using hsorted)]
+  have hst := sectionTable_blocks [] bs T 0 [] (by simpa using hwf)
+  simp only [List.nil_append] at hst
+  rw [hst]
+  simp only
+  -- every id the groups mention is in the table
+  let entry : Int → (List Note × Rat × Rat) := fun i =>
+    match bs[i.toNat]? with
+    | some (s, ns) => (shiftBlock s ns, maxEnd (shiftBlock s ns) 0, endOf (bs.drop (i.toNat + 1)) T - s)
+    | none => ([], 0, 0)
+  have hentry : ∀ i : Int, 0 ≤ i → i < bs.length → lookup i (tableOf bs 0 T []) = some (entry i) := by
+    intro i h0 h1
+    have hk : i.toNat < bs.length := by omega
+    obtain ⟨⟨s, ns⟩, hb⟩ : ∃ b, bs[i.toNat]? = some b := ⟨bs[i.toNat], by simp [hk]⟩
+    have := lookup_tableOf bs 0 T [] i.toNat s ns hb
+    simp only [zero_add, Int.toNat_of_nonneg h0] at this
+    rw [this]
+    simp only [entry, hb]
+  rw [lookupAll_ok _ _ entry (by
+    intro i hi
+    obtain ⟨g, hg, hi⟩ := List.mem_flatMap.mp hi
+    have := List.eq_of_mem_replicate hi
+    subst this
+    exact hentry g.1 (hids g hg).1 (hids g hg).2)]
+  simp only
+  -- durations cover the sections
+  have hcover : ∀ e ∈ (groups.flatMap (fun g => List.replicate g.2 g.1)).map entry, e.2.1 ≤ e.2.2 := by
+    intro e he
+    obtain ⟨i, hi, rfl⟩ := List.mem_map.mp he
+    obtain ⟨g, hg, hi⟩ := List.mem_flatMap.mp hi
+    have := List.eq_of_mem_replicate hi
+    subst this
+    have h0 := (hids g hg).1
+    have h1 := (hids g hg).2
+    have hk : g.1.toNat < bs.length := by omega
+    obtain ⟨⟨s, ns⟩, hb⟩ : ∃ b, bs[g.1.toNat]? = some b := ⟨bs[g.1.toNat], by simp [hk]⟩
+    simp only [entry, hb]
+    -- the block and what follows it are well formed
+    have hsplit : bs = bs.take g.1.toNat ++ (s, ns) :: bs.drop (g.1.toNat + 1) := by
+      have h2 : bs[g.1.toNat] = (s, ns) := by
+        have := List.getElem?_eq_getElem hk
+        rw [this] at hb; simpa using hb
+      conv_lhs => rw [← List.take_append_drop g.1.toNat bs]
+      rw [List.drop_eq_getElem_cons hk, h2]
+    have hsuf : BlocksWF ((s, ns) :: bs.drop (g.1.toNat + 1)) T := by
+      apply BlocksWF_suffix (pre := bs.take g.1.toNat)
+      rw [← hsplit]; exact hwf
+    apply maxEnd_le
+    · have := hsuf.1; linarith
+    · intro n hn
+      simp only [shiftBlock, List.mem_map] at hn
+      obtain ⟨m, hm, rfl⟩ := hn
+      have := (hsuf.2.1 m hm).2.2
+      simp only
+      linarith
+  obtain ⟨L, hL, hpd⟩ := concatNotes_pd _ 0 hcover
+  refine ⟨L, hL, ?_⟩
+  rw [hpd]
+  simp only [List.flatMap_map]
+  -- regroup
+  rw [regroup]
+  apply flatMap_congr'
+  intro g hg
+  have h0 := (hids g hg).1
+  have h1 := (hids g hg).2
+  have hk : g.1.toNat < bs.length := by omega
+  obtain ⟨⟨s, ns⟩, hb⟩ : ∃ b, bs[g.1.toNat]? = some b := ⟨bs[g.1.toNat], by simp [hk]⟩
+  have : List.map pd (entry g.1).1 = blockPd bs g.1 := by
+    simp only [entry, blockPd, hb, pd_shiftBlock]
+  rw [this]
+
 end NSV.C04
